@@ -24,7 +24,7 @@ theorem retry_resp_wet (strict : Bool) (op : Op) (s : State) (st : RunSt) :
   obtain ⟨r, st1⟩ := res
   cases r with
   | error e => rfl
-  | ok log => simp only [finish_resp_nofault]
+  | ok log => simp only [finish_resp_nofault, Option.isSome_none, Bool.false_eq_true, ↓reduceIte]
 
 theorem forgeLog_resp_wet (strict : Bool) (op : Op) (s : State) :
     (forgeLog strict op.wet none false s).resp = (forgeLog strict op none false s).resp := by
